@@ -190,7 +190,7 @@ fn native_pbd_chain() {
     println!("NATIVE native_pbd_chain cases={cases}");
 }
 
-//@unit props=C18 label=B tier=quick native=1 fn=pbd::PreBoneDeformer::{from_existing,get_deform_matrices} bound="by execution: the 5-node two-level tree with a reversed link table: every truncation and 7 single-byte corruptions per byte of the item and link tables and of the first blob, each followed by get_deform_matrices for 6 pairs of ids, under a 10 s deadline per case; plus hand-made cyclic parent links (self-loop, 2-cycle, 3-cycle)"
+//@unit props=C18 label=B tier=quick native=1 fn=pbd::PreBoneDeformer::{from_existing,get_deform_matrices} bound="by execution: the 5-node two-level tree with a reversed link table: every truncation and 7 single-byte corruptions per byte of the item and link tables and of the first blob, each followed by get_deform_matrices for 6 pairs of ids, under a 30 s deadline per case; plus hand-made cyclic parent links (self-loop, 2-cycle, 3-cycle)"
 //@desc damaged deformers (truncated, any count, index, link or offset damaged, cyclic parent links) make parsing and the chain walk return None or a value - no panic, and no walk that never ends
 #[test]
 fn native_pbd_damaged_nopanic() {
@@ -201,7 +201,7 @@ fn native_pbd_damaged_nopanic() {
     let v = npb_file(&nodes, &links);
     let walk = |b: &[u8]| { if let Some(p) = PreBoneDeformer::from_existing(b) { for (a, z) in [(401u16, 101u16), (301, 101), (201, 101), (501, 201), (101, 501), (401, 999)] { let _ = p.get_deform_matrices(a, z); } } };
     let mut s = NativeSites::new();
-    let guarded = move |b: &[u8]| { let owned = b.to_vec(); native_with_deadline(10, "get_deform_matrices on a damaged deformer", move || walk(&owned)); };
+    let guarded = move |b: &[u8]| { let owned = b.to_vec(); native_with_deadline(30, "get_deform_matrices on a damaged deformer", move || walk(&owned)); };
     // cyclic parent links first: the classic way to make the walk run for ever
     for cyc in 0..3usize {
         let (n2, mut l2) = npb_forest(&parents, &perm, &[1, 2, 0, 1, 2]);
